@@ -222,6 +222,8 @@ func (p *Path) Events() []*Event { return p.State.Events }
 type EvalConfig struct {
 	// Inline decides whether a static callee (origin, with body) is evaluated in place.
 	Inline func(callee *ssa.Function, depth int) bool
+	// KeepPanics: also report paths that end in an explicit panic guarded by a nil test / failed type test.
+	KeepPanics bool
 	// KeepHandedClosures: a function literal handed to a helper and called there stays an opaque call event (the rule
 	// is about that very call).
 	KeepHandedClosures bool
@@ -772,6 +774,25 @@ func (ev *Evaluator) Param(fn *ssa.Function, name string) *T {
 	return nil
 }
 
+func indexOf(names []string, n string) (int, bool) {
+	for i, x := range names {
+		if x == n {
+			return i, true
+		}
+	}
+	return -1, false
+}
+
+// bundleOf: t is a parameter bundle holding at least one of the named upstream parameters (index of the first), else -1.
+func bundleOf(t types.Type, names []string) int {
+	for i, n := range names {
+		if bundleField(t, n) >= 0 {
+			return i
+		}
+	}
+	return -1
+}
+
 func sameTerms(a, b []*T) bool {
 	if len(a) != len(b) {
 		return false
@@ -850,6 +871,19 @@ func (ev *Evaluator) normaliseArgs(e *Event, callee *ssa.Function) {
 		}
 		if out[i] == nil {
 			return // a parameter of the upstream signature is gone: leave the call as it is
+		}
+	}
+	// parameters the upstream signature does not have (a value threaded through instead of stored afterwards) follow
+	used := map[*T]bool{}
+	for _, o := range out {
+		used[o] = true
+	}
+	for j, a := range full {
+		if hasRecv && j == 0 {
+			continue
+		}
+		if _, isRef := indexOf(names, actual[j].Name()); !isRef && !used[a] && bundleOf(actual[j].Type(), names) < 0 {
+			out = append(out, a)
 		}
 	}
 	if hasRecv {
@@ -1126,6 +1160,11 @@ func (ev *Evaluator) runState(st *State) (*Path, []*State) {
 			}
 		case *ssa.Panic:
 			ev.emit(st, &Event{Kind: EvPanic, Val: ev.val(st, fr, in.X), Instr: in})
+			if !ev.Cfg.KeepPanics && defensivePanic(st) {
+				// an explicit panic behind a nil test (or a failed type test) stands where the code would have failed with
+				// a nil dereference (a failed assertion) anyway: not an outcome the rules reason about
+				return nil, forks
+			}
 			return &Path{State: st, Exit: ExitPanic}, forks
 		case *ssa.RunDefers:
 			if n := len(fr.defers); n > 0 {
@@ -1139,6 +1178,17 @@ func (ev *Evaluator) runState(st *State) (*Path, []*State) {
 		case *ssa.Store:
 			addr := ev.val(st, fr, in.Addr)
 			v := ev.val(st, fr, in.Val)
+			if s := decomposable(v.Typ); s != nil && v.Op == "zero" && s.NumFields() > 0 && !isFreshRoot(addr) {
+				// *p = T{} is the field-wise reset it abbreviates
+				for i := 0; i < s.NumFields(); i++ {
+					fa := ev.faddr(addr, v.Typ, i)
+					fv := ev.TS.zeroOf(s.Field(i).Type())
+					ev.emit(st, &Event{Kind: EvStore, Addr: fa, Val: fv, Instr: in})
+					ev.store(st, fa, fv)
+				}
+				fr.pc++
+				continue
+			}
 			if !isFreshRoot(addr) {
 				ev.emit(st, &Event{Kind: EvStore, Addr: addr, Val: v, Instr: in})
 			}
@@ -1460,6 +1510,31 @@ func (ev *Evaluator) clampSelect(st *State, fr *Frame, in *ssa.If) bool {
 	fr.block = join
 	fr.pc = len(phis)
 	return true
+}
+
+var stdLoopHelpers = map[string]bool{"Contains": true, "ContainsFunc": true, "Index": true, "IndexFunc": true}
+
+// defensivePanic: the panic's immediate guard (the last atoms assumed on the path) is "x == nil" or a failed type test.
+func defensivePanic(st *State) bool {
+	log := st.Facts.Log
+	if len(log) > 3 {
+		log = log[len(log)-3:]
+	}
+	for _, a := range log {
+		c := a.Cond
+		if c == nil {
+			continue
+		}
+		if c.Op == "cmp" && len(c.Args) == 2 && (c.Args[0].IsNilConst() || c.Args[1].IsNilConst()) {
+			if (c.Aux == "==" && a.Val) || (c.Aux == "!=" && !a.Val) {
+				return true
+			}
+		}
+		if c.Op == "app" && strings.HasPrefix(c.Aux, "typeok:") && !a.Val {
+			return true
+		}
+	}
+	return false
 }
 
 func (ev *Evaluator) tuple(ts []*T) *T {
@@ -1981,6 +2056,10 @@ func (ev *Evaluator) doCall(st *State, fr *Frame, c *ssa.CallCommon, instr ssa.I
 			if _, known := refParamNames(ev.P.CanonFuncName(callee)); !known {
 				inline = true
 			}
+		}
+		// the search helpers of the standard slices package are the loops they replace
+		if !inline && e.FnTerm == nil && callee.Pkg != nil && callee.Pkg.Pkg.Path() == "slices" && stdLoopHelpers[callee.Name()] {
+			inline = true
 		}
 		// a method expression's thunk is the method call it wraps
 		if !inline && e.FnTerm == nil && strings.HasSuffix(callee.Name(), "$thunk") && callee.Synthetic != "" && len(callee.Blocks) == 1 {
